@@ -31,6 +31,9 @@ def mc_sample(prop, tier, wd):
     if r.violated:
         raise core.ToolError("specification-level check failed: MC_Sample violates %s\n%s" % (r.violated, r.out[-2000:]))
     core.require_coverage(r, MC_ACTIONS, "Sample")
+    # every call returns: for every uniform number an edge is selected in each sector step and the tail runs to an outcome
+    lc = dict(consts, EMAX=2) if tier == "quick" else dict(consts, V=2)
+    core.liveness("MC_Sample", "MCFair", lc, "Termination", "mc_sample_live", wd)
     return r, consts
 
 
